@@ -258,7 +258,16 @@ where
                             let mut i = lo;
                             while i < hi {
                                 let wk = worker.get_or_insert_with(|| Worker::spawn(name));
-                                match wk.run(i, i + 1, opts.item_timeout) {
+                                let mut attempt = wk.run(i, i + 1, opts.item_timeout);
+                                if let Err(Crash::Hang) = attempt {
+                                    // A timeout is a timing verdict: before calling it a hang, run
+                                    // the item once more, alone, with eight times the budget (a
+                                    // loaded machine must not turn a slow item into a violation).
+                                    worker.take().map(|w| w.kill());
+                                    let wk = worker.get_or_insert_with(|| Worker::spawn(name));
+                                    attempt = wk.run(i, i + 1, opts.item_timeout * 8);
+                                }
+                                match attempt {
                                     Ok(r) => absorb_chunk(&mut local, r),
                                     Err(crash) => {
                                         let w = worker.take().unwrap();
